@@ -764,6 +764,39 @@ func genC05(r *Rng, tier string) []Case {
 					}
 				}
 			}
+			// b1: a non-empty variants-value with ONE ITEM TOO MANY in the value array (2k+2 items: a division-based
+			// size check lets it through and the reader loses its place)
+			if ver == bver.VersionB1 {
+				for _, ei := range []int{0, len(base.entries) - 1} {
+					l0 := base.entries[ei].locs[0]
+					for _, extra := range [][]byte{cborUint(7), cborText("https://evil.example/"), cborBytes([]byte("x")), {0x80}} {
+						for _, vv := range []string{"A;x", "A;x;y"} {
+							c := clone()
+							c.entries[ei].variants = []byte(vv)
+							nk := strings.Count(vv, ";")
+							c.entries[ei].locs = nil
+							for k := 0; k < nk; k++ {
+								c.entries[ei].locs = append(c.entries[ei].locs, l0)
+							}
+							c.entries[ei].tail = extra
+							c.entries[ei].count = u64p(uint64(2*nk + 2))
+							read(c.build())
+						}
+					}
+				}
+			}
+			// a header with an EMPTY name
+			for _, hs := range [][][2]string{{{"", "v"}}, {{"", ""}}, {{"", "v"}, {"x-a", "1"}}} {
+				c := clone()
+				c.items[0] = respItem("200", hs, []byte("x"))
+				c.entries[0].locs[0][1] = uint64(len(c.items[0]))
+				off := c.entries[0].locs[0][0] + uint64(len(c.items[0]))
+				for k := 1; k < len(c.entries); k++ {
+					c.entries[k].locs[0][0] = off
+					off += c.entries[k].locs[0][1]
+				}
+				read(c.build())
+			}
 			// a signatures section cut at every byte, with the wrong map size, wrong value types
 			{
 				good := append([]byte{0x82, 0x80, 0x81, 0xa3}, append(append(append(cborText("authority"), 0x00), append(cborText("sig"), 0x41, 0x01)...), append(cborText("signed"), 0x41, 0x02)...)...)
